@@ -924,6 +924,34 @@ fn run_zoned(c: &mut Ctx, n: usize, special: &[(i64, u32)]) {
         if tf.as_ref().ok() != bf.as_ref().ok() || tu.as_ref().ok() != bu.as_ref().ok() {
             c.fail("serde_json and bincode disagree on a zone-aware value", &format!("{sj}: {:?} {:?} {:?} {:?}", tf, bf, tu, bu));
         }
+        // the whole-domain characterisation (theorems datetime_roundtrip_any_offset / _wall_out_of_range), with
+        // independent arithmetic: refused exactly when the wall clock is outside the range, the rounded offset
+        // is a whole day, or the shown wall clock minus the rounded offset leaves the range; otherwise the
+        // rounded offset, and the instant moved by exactly the rounding error (any leap representation)
+        {
+            let rounded = off.signum() * ((off.abs() + 30) / 60 * 60);
+            let shown_wall = wall + if !is_leap(&nd) || wall.rem_euclid(60) == 59 { 0 } else { 1 };
+            let refused = out_of_range_wall
+                || rounded.abs() == 86_400
+                || shown_wall - (rounded as i128) < ts_min()
+                || shown_wall - (rounded as i128) > ts_max();
+            let good = |r: &Result<DateTime<FixedOffset>, String>, want_off: i32| match r {
+                Err(_) => refused,
+                Ok(x) => {
+                    !refused
+                        && x.offset().local_minus_utc() == want_off
+                        && inst_ns(&x.naive_utc()) - inst_ns(&nd) == (off - rounded) as i128 * 1_000_000_000
+                }
+            };
+            let tu_f = tu.clone().map(|x| x.fixed_offset());
+            c.count(if refused { "zoned:characterised:refused" } else { "zoned:characterised:read" });
+            if !good(&tf, rounded) || !good(&tu_f, 0) {
+                c.fail(
+                    "zone-aware round trip differs from its characterisation (rounded offset, wall clock kept)",
+                    &format!("{:?} at offset {off} s ({sj}) -> {:?} / {:?}", nd, tf, tu),
+                );
+            }
+        }
         match cls {
             "regular" | "leap-second" => {
                 match &tf {
